@@ -194,20 +194,15 @@ class Interp:
     def rel_guard(self, born):
         """state guard minus the prefix that already held when `born` was taken"""
         g = self.cur_guard_list(state=True)
-        i = 0
-        while i < len(g) and i < len(born) and g[i] == born[i]:
-            i += 1
-        return and_(*g[i:])
+        known = set(born)
+        return and_(*[c for c in g if c not in known])
 
     def rel_guard_loop(self, born, L):
         """like rel_guard, additionally dropping the conjuncts that merely say
         'the loop body of L is executing' (loop condition and everything before it)"""
         g = self.cur_guard_list(state=True)
-        i = 0
-        while i < len(g) and i < len(born) and g[i] == born[i]:
-            i += 1
-        i = max(i, getattr(L, "body_guard_len", 0))
-        return and_(*g[i:])
+        known = set(born) | getattr(L, "body_guard_set", set())
+        return and_(*[c for c in g if c not in known])
 
     def born_now(self):
         return tuple(self.cur_guard_list(state=True))
@@ -1466,7 +1461,13 @@ class _StmtMixin:
             fr.loop_stack[-1].cont.append(self.loop_local_guard())
 
     def loop_local_guard(self):
-        return self.local_guard()
+        """condition of the current path relative to the start of the loop body"""
+        ctl = self.frames[-1].loop_stack[-1]
+        g = self.cur_guard_list(state=True)
+        known = getattr(ctl, "base_set", None)
+        if known is None:
+            return self.local_guard()
+        return and_(*[c for c in g if c not in known])
 
     def st_Match(self, st):
         self.warnings.append("match statement not modelled")
@@ -1509,6 +1510,7 @@ class _LoopMixin:
             ctl = LoopCtl()
             fr.loop_stack.append(ctl)
             self.event("loop_unrolled", (len(elems),), st)
+            ctl.base_set = set(self.cur_guard_list(state=True))
             for e in elems:
                 ctl.cont = []
                 if not self.feasible():
@@ -1810,7 +1812,8 @@ class _LoopMixin:
                 self.assign(st.target, elem, st)
             if final:
                 L.body_guard = self.cur_guard()
-            L.body_guard_len = len(self.cur_guard_list(state=True))
+            L.body_guard_set = set(self.cur_guard_list(state=True))
+            ctl.base_set = L.body_guard_set
             if self.feasible():
                 self.exec_block(st.body)
         finally:
